@@ -91,6 +91,11 @@ func extractSchemas(f *Facts) {
 				if it := st.Get("control"); it != "" {
 					key = it
 				}
+				if key == "-" {
+					// `control:"-"`: neither decoder nor encoder ever looks at this field; it is not part
+					// of the document schema (DSC.Filename, Changes.Filename, Control.Filename)
+					continue
+				}
 				rows = append(rows, fmt.Sprintf("  ⟨%s, %s, %s, %s, %s, %v, %v⟩", leanStr(n), leanStr(key), leanStr(kindText(fld.Type)),
 					leanStr(st.Get("delim")), leanStr(st.Get("strip")), st.Get("required") == "true", anon))
 			}
